@@ -646,33 +646,40 @@ Fixpoint flag_pos (k : nat) (negs : vec) (total : Q) : list nat :=
   end.
 Definition zero_at (v : vec) (idx : list nat) : vec := fold_left (fun acc i => upd acc i 0) idx v.
 
-Definition remove_negligible (v : vec) : vec :=
+(* the repaired code (pending_fixes/C05_3) indexes the material at the negligible negatives themselves *)
+Definition zero_negl (total : Q) (v : vec) : vec :=
+  map (fun x => if qltb x 0 && qltb (- tiny) (x / total) then 0 else x) v.
+
+(* legacy = true: the unrepaired code (entry k deleted for the k-th negligible negative) *)
+Definition remove_negligible (legacy : bool) (v : vec) : vec :=
   match neg_vals v with
   | [] => v
-  | negs => if qltb tiny (abs_sum v) then zero_at v (flag_pos 0 negs (abs_sum v)) else clampv v
+  | negs => if qltb tiny (abs_sum v)
+            then (if legacy then zero_at v (flag_pos 0 negs (abs_sum v)) else zero_negl (abs_sum v) v)
+            else clampv v
   end.
 
-Definition force_process (o : robj) (v : vec) : option err * vec :=
+Definition force_process (legacy : bool) (o : robj) (v : vec) : option err * vec :=
   let (v1, e) := react_obj o v in
   match e with
   | Some e => (Some e, v1)
-  | None => (None, remove_negligible v1)
+  | None => (None, remove_negligible legacy v1)
   end.
 
-Definition force_stream (mws : vec) (o : robj) (mol : vec) : option err * vec :=
+Definition force_stream (legacy : bool) (mws : vec) (o : robj) (mol : vec) : option err * vec :=
   if obasis o then
-    let (e, v) := force_process o (to_mass mws mol) in
+    let (e, v) := force_process legacy o (to_mass mws mol) in
     match e with None => (None, of_mass mws v) | Some e => (Some e, mol) end
-  else force_process o mol.
+  else force_process legacy o mol.
 
-Definition force_call (mws : vec) (o : robj) (m : material) : option err * vec :=
+Definition force_call (legacy : bool) (mws : vec) (o : robj) (m : material) : option err * vec :=
   match m with
-  | MStream mol => force_stream mws o mol
+  | MStream mol => force_stream legacy mws o mol
   | MOther nA fwd bwd mol =>
       match remap nA fwd mol with
       | Err e => (Some e, [])
       | Ok a =>
-          let (e, a') := force_stream mws o a in
+          let (e, a') := force_stream legacy mws o a in
           match e with
           | Some e => (Some e, [])
           | None => match remap (length mol) bwd a' with Err e => (Some e, []) | Ok b => (None, b) end
@@ -681,12 +688,12 @@ Definition force_call (mws : vec) (o : robj) (m : material) : option err * vec :
   | MBadPhases mol => (Some EValue, mol)
   | MNumpy a =>
       if negb (len_ok o a) then (Some EValue, a)
-      else let (e, v) := force_process o a in
+      else let (e, v) := force_process legacy o a in
            match e with None => (None, v) | Some e => (Some e, a) end
   | MNumpyBadDim a => (Some EValue, a)
-  | MSparse a => if negb (len_ok o a) then (Some EValue, a) else force_process o a
+  | MSparse a => if negb (len_ok o a) then (Some EValue, a) else force_process legacy o a
   | MMassView mol =>
-      let (e, v) := force_process o (to_mass mws mol) in
+      let (e, v) := force_process legacy o (to_mass mws mol) in
       match e with None => (None, of_mass mws v) | Some e => (Some e, mol) end
   end.
 
